@@ -11,6 +11,7 @@
 #include "common.hpp"
 #include <BayesFilters/AdditiveMeasurementModel.h>
 #include <BayesFilters/AdditiveStateModel.h>
+#include <BayesFilters/BootstrapCorrection.h>
 #include <BayesFilters/EstimatesExtraction.h>
 #include <BayesFilters/GPFCorrection.h>
 #include <BayesFilters/GaussianLikelihood.h>
@@ -462,6 +463,248 @@ static void k_extract(const vf::Case& c) {
     }
 }
 
+// ---------------------------------------------------------------- operation sequences on ONE object
+static std::vector<long> wins;
+static std::vector<long> ints_of(const std::string& t) {      // "x:3:5:5" -> 3 5 5 ; "c4" -> 4
+    std::vector<long> v; std::string cur; bool any_digit = false;
+    for (size_t i = 1; i <= t.size(); i++) {
+        char ch = i < t.size() ? t[i] : ':';
+        if (ch == ':') { if (any_digit) v.push_back(std::stol(cur)); cur.clear(); any_digit = false; }
+        else { cur.push_back(ch); any_digit = true; }
+    }
+    return v;
+}
+// the window, as the public getInfo() reports it (-1: not recognised)
+static long window_of(const EstimatesExtraction& ex) {
+    std::vector<std::string> info = ex.getInfo();
+    if (info.empty()) return -1;
+    size_t p = info[0].find_first_of("0123456789");
+    if (p == std::string::npos) return -1;
+    return std::stol(info[0].substr(p));
+}
+static VectorXd incr_weights(long k) { VectorXd v(k); for (long i = 0; i < k; i++) v(i) = std::log((i + 1.0) / (k * (k + 1.0) / 2.0)); return v; }
+
+// EstimatesExtraction: setMethod / setMobileAverageWindowSize / clear / extract (both overloads) in any order on one object
+static void k_extseq(const vf::Case& c) {
+    long el = c.mi("el"), ec = c.mi("ec");
+    std::unique_ptr<EstimatesExtraction> exp_;
+    { E e("EstimatesExtraction::EstimatesExtraction"); if (ec > 0) exp_.reset(new EstimatesExtraction(el, ec)); else exp_.reset(new EstimatesExtraction(el)); }
+    EstimatesExtraction& ex = *exp_;
+    using M = EstimatesExtraction::ExtractionMethod;
+    static const M table[12] = {M::mean, M::smean, M::wmean, M::emean, M::mode, M::smode, M::wmode, M::emode, M::map, M::smap, M::wmap, M::emap};
+    long call = 0;
+    for (auto& t : c.word("ops")) {
+        if (t == "clr") { E e("EstimatesExtraction::clear"); ob(ex.clear() ? 1 : 0); }
+        else if (t[0] == 'm') { E e("EstimatesExtraction::setMethod"); ob(ex.setMethod(table[ints_of(t).at(0) % 12]) ? 1 : 0); }
+        else if (t[0] == 'w') { E e("EstimatesExtraction::setMobileAverageWindowSize"); ob(ex.setMobileAverageWindowSize((int)std::stol(t.substr(1))) ? 1 : 0); }
+        else {
+            std::vector<long> a = ints_of(t);
+            MatrixXd parts = filled(a.at(0), a.at(1), call++);
+            VectorXd wts = incr_weights(a.at(2));
+            E e("EstimatesExtraction::extract");
+            std::pair<bool, VectorXd> r;
+            if (t[0] == 'X') {
+                VectorXd pw = incr_weights(a.at(3));
+                VectorXd lik(a.at(4)); for (long i = 0; i < lik.size(); i++) lik(i) = 0.1 + ((i + call) % 5);
+                MatrixXd tp = MatrixXd::Constant(a.at(5), a.at(6), 0.3);
+                r = ex.extract(parts, wts, pw, lik, tp);
+            } else r = ex.extract(parts, wts);
+            ob(r.first ? 1 : 0); ob(r.second.size());
+        }
+        wins.push_back(window_of(ex));
+    }
+}
+
+// Steps, models and utilities that keep a buffer sized by an EARLIER call (innovations_, meas_covariances_, predicted_meas_,
+// propagated_sigma_points_, likelihood_, measurement_, UT weights): one object, several calls, the sizes CHANGING between calls
+// (component / particle count, measurement layout and size, noise size, sample count).  No shape program: the assertion and
+// sanitizer builds are the observers; the sizes the calls report are compared with what the arguments imply.
+static void k_objseq(const vf::Case& c) {
+    std::string what = c.m("what");
+    const std::vector<std::string>& steps = c.word("steps");
+    if (what == "kf") {
+        long m = c.mi("m"), n = c.mi("n");
+        ServedLTI* raw = new ServedLTI(filled(m, n, 1), spd(m, 2), filled(m, 1, 3));
+        KFCorrection kf((std::unique_ptr<LinearMeasurementModel>(raw)));
+        Layout l{n, 0, false};
+        long k = 0;
+        for (auto& t : steps) {
+            if (t == "l") { E e("KFCorrection::getLikelihood"); auto r = kf.getLikelihood(); ob(r.first ? 1 : 0); ob(r.first ? r.second.size() : 0); continue; }
+            long comps = ints_of(t).at(0);
+            GaussianMixture pred = make_mixture(l, comps, 0, k), corr = make_mixture(l, comps, 0, k + 2); k++;
+            raw->available = t[0] != 'u';
+            kf.skip(t[0] == 'k');
+            E e("KFCorrection::correct"); kf.freeze_measurements(); kf.correct(pred, corr); ob(corr.components); ob(corr.dim);
+        }
+    } else if (what == "ukf") {
+        bool additive = c.mi("additive") != 0;
+        Layout lp = lay(c, "p");
+        long r0 = c.mi("r");
+        std::unique_ptr<UMeas> mm(new UMeas(Layout{r0, 0, false}, lp, r0, r0, true));
+        UMeas* raw = mm.get();
+        std::unique_ptr<UKFCorrection> u;
+        { E e("UKFCorrection::UKFCorrection");
+          if (additive) u.reset(new UKFCorrection(std::unique_ptr<AdditiveMeasurementModel>(std::move(mm)), 1.0, 2.0, 0.5));
+          else u.reset(new UKFCorrection(std::unique_ptr<MeasurementModel>(std::move(mm)), 1.0, 2.0, 0.5, c.mi("online") != 0)); }
+        long k = 0;
+        for (auto& t : steps) {
+            if (t == "l") { E e("UKFCorrection::getLikelihood"); auto r = u->getLikelihood(); ob(r.first ? 1 : 0); ob(r.first ? r.second.size() : 0); continue; }
+            std::vector<long> a = ints_of(t);          // comps : mL : mC : mq : r
+            Layout lm{a.at(1), a.at(2), a.at(3) != 0};
+            raw->lm = lm; raw->yr = lm.dim(); raw->ir = lm.cov(); raw->r = a.at(4); raw->rcols = a.at(4); raw->valid = t[0] != 'f';
+            GaussianMixture pred = make_mixture(lp, a.at(0), 0, k), corr = make_mixture(lp, a.at(0), 0, k + 2); k++;
+            E e("UKFCorrection::correct"); u->freeze_measurements(); u->correct(pred, corr); ob(corr.components); ob(corr.dim);
+        }
+    } else if (what == "sukf") {
+        Layout lp = lay(c, "p");
+        long sub = c.mi("sub"), m0 = c.mi("msz");
+        UMeas* raw = new UMeas(Layout{m0, 0, false}, lp, m0, m0, true);
+        std::unique_ptr<AdditiveMeasurementModel> mm(raw);
+        std::unique_ptr<SUKFCorrection> up;
+        { E e("SUKFCorrection::SUKFCorrection"); up.reset(new SUKFCorrection(std::move(mm), 1.0, 2.0, 0.5, (std::size_t)sub, c.mi("reduced") != 0)); }
+        long k = 0;
+        for (auto& t : steps) {
+            if (t == "l") { E e("SUKFCorrection::getLikelihood"); auto r = up->getLikelihood(); ob(r.first ? 1 : 0); ob(r.first ? r.second.size() : 0); continue; }
+            std::vector<long> a = ints_of(t);          // comps : msz
+            long msz = a.at(1), rr = c.mi("reduced") ? sub : msz;
+            raw->lm = Layout{msz, 0, false}; raw->yr = msz; raw->ir = msz; raw->r = rr; raw->rcols = rr; raw->valid = t[0] != 'f';
+            GaussianMixture pred = make_mixture(lp, a.at(0), 0, k), corr = make_mixture(lp, a.at(0), 0, k + 2); k++;
+            E e("SUKFCorrection::correct"); up->freeze_measurements(); up->correct(pred, corr); ob(corr.components); ob(corr.dim);
+        }
+    } else if (what == "gpf" || what == "boot") {
+        // 2-D motion model (4 numbers per state), two measured components
+        Layout l{4, 0, false};
+        MatrixXd H = MatrixXd::Zero(2, 4); H(0, 0) = 1.0; H(1, 2) = 1.0;
+        std::vector<ServedLTI*> served; UMeas* uraw = nullptr;
+        std::unique_ptr<PFCorrection> pf;
+        if (what == "gpf") {
+            std::unique_ptr<GaussianCorrection> inner;
+            if (c.mi("inner") == 0) { ServedLTI* sv = new ServedLTI(H, spd(2, 2), filled(2, 1, 3)); served.push_back(sv);
+                                      inner.reset(new KFCorrection(std::unique_ptr<LinearMeasurementModel>(sv))); }
+            else { uraw = new UMeas(Layout{2, 0, false}, l, 2, 2, true);
+                   inner.reset(new UKFCorrection(std::unique_ptr<AdditiveMeasurementModel>(uraw), 1.0, 2.0, 0.5)); }
+            std::unique_ptr<StateModel> sm(new WhiteNoiseAcceleration(WhiteNoiseAcceleration::Dim::TwoD, 1.0, 1.0, 3));
+            E e("GPFCorrection::GPFCorrection");
+            pf.reset(new GPFCorrection(std::unique_ptr<LikelihoodModel>(new GaussianLikelihood()), std::move(inner), std::move(sm), 3));
+        } else {
+            ServedLTI* sv = new ServedLTI(H, spd(2, 2), filled(2, 1, 3)); served.push_back(sv);
+            E e("BootstrapCorrection::BootstrapCorrection");
+            pf.reset(new BootstrapCorrection(std::unique_ptr<MeasurementModel>(sv), std::unique_ptr<LikelihoodModel>(new GaussianLikelihood(0.5))));
+        }
+        const char* lc = what == "gpf" ? "GPFCorrection::correct" : "BootstrapCorrection::correct";
+        const char* ll = what == "gpf" ? "GPFCorrection::getLikelihood" : "BootstrapCorrection::getLikelihood";
+        long k = 0;
+        for (auto& t : steps) {
+            if (t == "l") { E e(ll); auto r = pf->getLikelihood(); ob(r.first ? 1 : 0); ob(r.first ? r.second.size() : 0); continue; }
+            long np = ints_of(t).at(0);
+            ParticleSet pred = make_particles(l, np, k), corr = make_particles(l, np, k + 1); k++;
+            for (ServedLTI* sv : served) sv->available = t[0] != 'u';
+            if (uraw) uraw->valid = t[0] != 'u';
+            pf->skip(t[0] == 'k');
+            E e(lc); pf->freeze_measurements(); pf->correct(pred, corr);
+            ob(corr.components); ob(corr.state().cols()); ob(corr.weight().size());
+        }
+    } else if (what == "resample" || what == "resprior") {
+        std::unique_ptr<Resampling> r;
+        if (what == "resample") r.reset(new Resampling(11));
+        else r.reset(new ResamplingWithPrior(std::unique_ptr<ParticleSetInitialization>(new ZeroInit()), std::stod(c.m("ratio")), 11));
+        const char* le = what == "resample" ? "Resampling::resample" : "ResamplingWithPrior::resample";
+        long k = 0;
+        for (auto& t : steps) {
+            std::vector<long> a = ints_of(t);          // n : L : C : q
+            Layout l{a.at(1), a.at(2), a.at(3) != 0};
+            ParticleSet cor = make_particles(l, a.at(0), k), res = make_particles(l, a.at(0), k + 2); k++;
+            VectorXi parents(a.at(0));
+            if (t[0] == 'n') { E e("Resampling::neff"); double ne = r->neff(cor.weight()); ob(ne > 0.0 ? 1 : 0); continue; }
+            E e(le); r->resample(cor, res, parents); ob_particles(res);
+        }
+    } else if (what == "wna") {
+        long D = c.mi("D"), d = 2 * D;
+        std::unique_ptr<WhiteNoiseAcceleration> w;
+        { E e("WhiteNoiseAcceleration::WhiteNoiseAcceleration"); w.reset(new WhiteNoiseAcceleration(wdim(D), 0.7, 1.3, 5)); }
+        long k = 0;
+        for (auto& t : steps) {
+            long q = ints_of(t).at(0); k++;
+            if (t[0] == 's') { E e("WhiteNoiseAcceleration::getNoiseSample"); MatrixXd s = w->getNoiseSample(q); ob(s.rows()); ob(s.cols()); }
+            else if (t[0] == 'p') { E e("WhiteNoiseAcceleration::propagate"); MatrixXd out(d, q); w->propagate(filled(d, q, k), out); ob(out.rows()); ob(out.cols()); }
+            else if (t[0] == 'm') { E e("WhiteNoiseAcceleration::motion"); MatrixXd out(d, q); w->motion(filled(d, q, k), out); ob(out.rows()); ob(out.cols()); }
+            else { E e("WhiteNoiseAcceleration::getTransitionProbability"); VectorXd p = w->getTransitionProbability(filled(d, q, k), filled(d, q, k + 1)); ob(p.size()); ob(1); }
+        }
+    } else if (what == "sensor") {
+        long D = c.mi("D"), d = 2 * D, T = c.mi("T");
+        std::vector<std::size_t> ms;
+        for (auto& t : c.word("ms")) ms.push_back((std::size_t)std::stol(t));
+        long m = (long)ms.size();
+        std::unique_ptr<WhiteNoiseAcceleration> w(new WhiteNoiseAcceleration(wdim(D), 0.7, 1.3, 5));
+        std::unique_ptr<SimulatedStateModel> sm(new SimulatedStateModel(std::move(w), VectorXd(filled(d, 1)), T));
+        std::unique_ptr<SensorAccess> sen;
+        { E e("SimulatedLinearSensor::SimulatedLinearSensor"); sen.reset(new SensorAccess(std::move(sm), std::make_pair((std::size_t)d, ms), spd(m), 7)); }
+        long k = 0;
+        for (auto& t : steps) {
+            long q = t.size() > 1 ? ints_of(t).at(0) : 0; k++;
+            if (t[0] == 'z') { E e("SimulatedLinearSensor::freeze"); bool r = sen->freeze(); ob(r ? 1 : 0);
+                               if (r) { MatrixXd y = any::any_cast<MatrixXd>(sen->measure().second); ob(y.rows()); ob(y.cols()); } else { ob(0); ob(0); } }
+            else if (t[0] == 's') { E e("LinearModel::getNoiseSample"); MatrixXd s = sen->noise((int)q).second; ob(s.rows()); ob(s.cols()); }
+            else { E e("LinearMeasurementModel::predictedMeasure");
+                   MatrixXd p = any::any_cast<MatrixXd>(sen->predictedMeasure(filled(d, q, k)).second); ob(p.rows()); ob(p.cols()); }
+        }
+    } else if (what == "ukfp" || what == "kfp") {
+        Layout ls = lay(c, "s");
+        long q = c.mi("q");
+        std::unique_ptr<GaussianPrediction> u;
+        if (what == "kfp") { long d = ls.dim();
+            u.reset(new KFPrediction(std::unique_ptr<LinearStateModel>(new LTIState(filled(d, d, 1) + MatrixXd::Identity(d, d), spd(d, 2))))); }
+        else { E e("UKFPrediction::UKFPrediction");
+            if (c.mi("additive")) u.reset(new UKFPrediction(std::unique_ptr<AdditiveStateModel>(new UAddState(ls, q, q)), 1.0, 2.0, 0.5));
+            else u.reset(new UKFPrediction(std::unique_ptr<StateModel>(new UState(ls, q)), 1.0, 2.0, 0.5)); }
+        const char* le = what == "kfp" ? "KFPrediction::predict" : "UKFPrediction::predict";
+        long k = 0;
+        GaussianMixture carried(1, 1);
+        for (auto& t : steps) {
+            long comps = ints_of(t).at(0);
+            // UKFPrediction assigns its output: the output object comes in with the shape the PREVIOUS call left; KFPrediction
+            // writes into it: it comes in with the shape of the input
+            GaussianMixture prev = make_mixture(ls, comps, 0, k), fresh = make_mixture(ls, comps, 0, k + 1); k++;
+            GaussianMixture& pred = what == "kfp" ? fresh : carried;
+            u->skip("prediction", t[0] == 'k');
+            E e(le); u->predict(prev, pred); ob(pred.components); ob(pred.dim); ob(pred.dim_covariance);
+        }
+    } else if (what == "grid") {
+        InitSurveillanceAreaGrid g(0.0, 10.0, -2.0, 6.0, (unsigned)c.mi("nx"), (unsigned)c.mi("ny"));
+        for (auto& t : steps) {
+            std::vector<long> a = ints_of(t);          // n : L
+            ParticleSet p(a.at(0), a.at(1));
+            E e("InitSurveillanceAreaGrid::initialize"); ob(g.initialize(p) ? 1 : 0);
+        }
+    } else if (what == "pset") {
+        // one ParticleSet: augmentWithNoise / resize (same and other description) / operator+= / element-wise writes, then used
+        // together with sets that have the shape its DESCRIPTORS advertise (resampling target, right-hand side of +=)
+        ParticleSet p = make_particles(lay(c, "s"), c.mi("n"));
+        auto cur = [&]() { return Layout{(long)p.dim_linear, (long)p.dim_circular, p.use_quaternion}; };
+        auto like = [&](long n, long k) { ParticleSet o = make_particles(cur(), n, k); if (p.dim_noise > 0) o.augmentWithNoise(spd(p.dim_noise, 3)); return o; };
+        long k = 0;
+        for (auto& t : steps) {
+            std::vector<long> a = ints_of(t); k++;
+            if (t[0] == 'a') { E e("ParticleSet::augmentWithNoise"); p.augmentWithNoise(spd(a.at(0), 3)); }
+            else if (t[0] == 'r') { E e("ParticleSet::resize"); p.resize(a.at(0), p.dim_linear, p.dim_circular); }
+            else if (t[0] == 'R') { E e("ParticleSet::resize"); p.resize(a.at(0), a.at(1), a.at(2)); }
+            else if (t[0] == '+') { ParticleSet o = like(a.at(0), k); E e("ParticleSet::operator+="); p += o; }
+            else if (t[0] == 'f') { E e("ParticleSet::state()/mean()/covariance(i)=");
+                                    p.state() = filled(p.dim, p.components, k); p.mean() = filled(p.dim, p.components, k + 1);
+                                    fix_quaternions(p.state(), cur()); fix_quaternions(p.mean(), cur());
+                                    for (std::size_t i = 0; i < p.components; i++) p.covariance(i) = spd(p.dim_covariance, k + (long)i);
+                                    p.weight() = incr_weights(p.components); }
+            else if (t[0] == 's') { E e("sigma_point::sigma_point"); MatrixXd sp = sigma_point::sigma_point(p, 3.0); (void)sp; }
+            else if (t[0] == 'm') { ParticleSet res = like(p.components, k); VectorXi par(p.components); Resampling r(5);
+                                    E e("Resampling::resample"); r.resample(p, res, par); }
+            else if (t[0] == 'c') { E e("ParticleSet::state(i)=mean(i)"); for (std::size_t i = 0; i < p.components; i++) p.state(i) = p.mean(i); }
+            ob(p.components); ob(p.dim); ob(p.dim_covariance); ob(p.dim_noise); ob(p.dim_linear); ob(p.dim_circular);
+            ob(p.state().rows()); ob(p.state().cols()); ob(p.mean().rows()); ob(p.mean().cols());
+            ob(p.covariance().rows()); ob(p.covariance().cols()); ob(p.weight().size());
+        }
+    } else { std::fprintf(stderr, "BFL_VERIF_HARNESS unknown objseq %s\n", what.c_str()); std::exit(3); }
+}
+
 // lifetime errors the shape calculus cannot exhibit: moved objects followed by a call (asan tier)
 static void k_lifetime(const vf::Case& c) {
     std::string what = c.m("what");
@@ -517,7 +760,7 @@ int main() {
     else { std::signal(SIGSEGV, on_signal); std::signal(SIGABRT, on_signal); std::signal(SIGFPE, on_signal); std::signal(SIGBUS, on_signal); }
     vf::Case c;
     while (vf::read_case(std::cin, c)) {
-        obs.clear();
+        obs.clear(); wins.clear();
         g_entry = "none";
         std::string verdict = "safe", what;
         try {
@@ -539,6 +782,8 @@ int main() {
             else if (c.kind == "density") k_density(c);
             else if (c.kind == "uvr") k_uvr(c);
             else if (c.kind == "extract") k_extract(c);
+            else if (c.kind == "extseq") k_extseq(c);
+            else if (c.kind == "objseq") k_objseq(c);
             else if (c.kind == "lifetime") k_lifetime(c);
             else { std::fprintf(stderr, "BFL_VERIF_HARNESS unknown kind %s\n", c.kind.c_str()); return 3; }
         } catch (const std::bad_alloc& ex) {
@@ -552,6 +797,7 @@ int main() {
         std::vector<std::string> w; for (long v : obs) w.push_back(std::to_string(v));
         if (verdict != "safe") w.clear();
         vf::out_word("obs", w);
+        if (c.kind == "extseq" && verdict == "safe") { std::vector<std::string> ww; for (long v : wins) ww.push_back(std::to_string(v)); vf::out_word("win", ww); }
         vf::out_end();
     }
     return 0;
